@@ -3,9 +3,27 @@ package main
 import (
 	"math/rand"
 	"strconv"
+	"strings"
 )
 
-var namePool = []string{"", "a", "b"}
+// two of the names are 70 bytes long and share their first 63 bytes (NAMEDATALEN-1): names are arbitrary strings
+var longNameA = "n123456789012345678901234567890123456789012345678901234567890xy-first"
+var longNameB = "n123456789012345678901234567890123456789012345678901234567890xy-other"
+var namePool = []string{"", "a", "b", "a", "b", "", longNameA, longNameB}
+
+// randOids: the parameter data types a Parse message may prespecify (ignored by the library: the types a
+// statement declares are what Describe announces)
+func randOids(r *rand.Rand, nparams int) []uint32 {
+	if r.Intn(2) == 0 {
+		return nil
+	}
+	k := r.Intn(nparams + 2)
+	oids := make([]uint32, k)
+	for i := range oids {
+		oids[i] = []uint32{0, 23, 25, 20, 16, 1043, 17}[r.Intn(7)]
+	}
+	return oids
+}
 
 func pick(r *rand.Rand, xs []string) string { return xs[r.Intn(len(xs))] }
 
@@ -223,6 +241,12 @@ func genSession(r *rand.Rand, id string) *Case {
 			// drop generated "oversized" messages that are not oversized for this limit: they are just big valid ones
 		}
 		in = append(in, flatten(msgs)...)
+	}
+	if r.Intn(10) == 0 && effL > 300 && !c.Auth {
+		// an answer of well over 4 KiB with Terminate pipelined right behind the request
+		rows := strings.Repeat("r:t"+hxs(strings.Repeat("0123456789", 20))+";", 25+r.Intn(20))
+		in = append(in, msgQuery("t//"+rows+"c:"+hxs("BIG")+"/ok")...)
+		in = append(in, msgTerminate()...)
 	}
 	c.In = in
 	c.Cuts = randCuts(r, len(in))
